@@ -178,7 +178,7 @@ struct Harness {
 	void opRemoveVia(int i, int id, const char * what) {
 		bool expect = mr[i].owned.count(id) && std::find(attached[mr[i].target].begin(), attached[mr[i].target].end(), id) != attached[mr[i].target].end();
 		bool got = A::rRemove(*rem[i], handleOf[id]);
-		ctx.log(fmt("R%d.remove(#%d %s) -> %d", i, id, what, (int)got));
+		ctx.log(fmt("R%d.remove(#%d %s) -> %d", i, id, what, (int)got)); ctx.tagStep(got ? "+r1" : "+r0");
 		ctx.obs(got);
 		if(expect) { attached[mr[i].target].erase(std::remove(attached[mr[i].target].begin(), attached[mr[i].target].end(), id), attached[mr[i].target].end()); mr[i].owned.erase(id); }
 		if(got != expect) ctx.fail("remove-via-remover-result", fmt("remove of #%d (%s) through R%d returned %d, expected %d", id, what, i, (int)got, (int)expect));
